@@ -448,4 +448,5 @@ def run(ctx):
         "R3.no-access-after-handover": "after the hand-over the other endpoint may free the storage; a later access reads a freed payload / waker",
         "R6.sibling-agreement": "set() and the sender's drop are the two ways the sender leaves; a step present in one and missing in the other loses the wake-up or the payload on that path",
         "R4.release-discipline": "a receiver that goes away without final_poll (or without releasing after a terminal outcome) leaves a sent payload undelivered AND undestroyed",
+        "R1.acquire-before-release": "every arm on which the receiver goes on to release the event (value taken OR sender disconnected) must have acquired the sender's accesses: the disconnect arm too reads/frees cells the sender touched",
     })
